@@ -3,8 +3,10 @@ package main
 import (
 	"fmt"
 	"math/rand"
+	"sort"
 	"strings"
 	"time"
+	"verifharness/gen"
 
 	txfile "github.com/elastic/go-txfile"
 
@@ -218,5 +220,126 @@ func stallScenario2(rep *Report, r *rand.Rand) {
 	rep.count("stall-scenarios-checkpoint-then-overwrite", 1)
 	if e != nil {
 		rep.nontrivial(fmt.Sprintf("stall2/%d", n))
+	}
+}
+
+// walK1: the overwrite mapping after every commit vs. the Coq model of the transaction core (Model/TxCore.v,
+// theorem commit_reads): histories of allocations, page writes, page / transaction flushes, manual checkpoints
+// and commits with various overwrite-page limits (no frees: Tx.Free is not part of that model).
+func walK1(rep *Report, m *model.Client, r *rand.Rand, n int) {
+	for i := 0; i < n; i++ {
+		hseed := r.Int63()
+		hr := rand.New(rand.NewSource(hseed))
+		cfg := gen.PickConfig(hr)
+		var ops []engine.Op
+		for t := 2 + hr.Intn(7); t > 0; t-- {
+			ops = append(ops, engine.Op{Kind: "begin", WALLimit: []uint{0, 1, 2, 3, 5, 1000}[hr.Intn(6)]})
+			for k := hr.Intn(13); k > 0; k-- {
+				switch x := hr.Intn(100); {
+				case x < 25:
+					ops = append(ops, engine.Op{Kind: "alloc", N: 1 + hr.Intn(4)})
+				case x < 60:
+					ops = append(ops, engine.Op{Kind: "setfull", P: hr.Intn(1 << 16), Seed: 1 + hr.Intn(1<<20)})
+				case x < 70:
+					ops = append(ops, engine.Op{Kind: "flushpage", P: hr.Intn(1 << 16)})
+				case x < 75:
+					ops = append(ops, engine.Op{Kind: "flush"})
+				case x < 82:
+					ops = append(ops, engine.Op{Kind: "checkpoint"})
+				default:
+					ops = append(ops, engine.Op{Kind: "read", P: hr.Intn(1 << 16)})
+				}
+			}
+			if hr.Intn(100) < 85 {
+				ops = append(ops, engine.Op{Kind: "commit"}, engine.Op{Kind: "verify"})
+			} else {
+				ops = append(ops, engine.Op{Kind: "rollback"})
+			}
+		}
+		var toks []string
+		var oldMap string
+		var limit uint
+		var mism []string
+		setup := func(e *engine.Engine) {
+			e.AfterOp = func(e *engine.Engine, op engine.Op, res engine.Result) {
+				if res.Skipped || res.Panicked {
+					return
+				}
+				switch op.Kind {
+				case "begin":
+					if res.Err != "" || e.File == nil {
+						return
+					}
+					toks = nil
+					limit = op.WALLimit
+					if limit == 0 {
+						limit = 1000
+					}
+					mp := txfile.VerifSnapshot(e.File).WalMapping
+					keys := make([]uint64, 0, len(mp))
+					for k := range mp {
+						keys = append(keys, k)
+					}
+					sort.Slice(keys, func(a, b int) bool { return keys[a] < keys[b] })
+					var parts []string
+					for _, k := range keys {
+						parts = append(parts, fmt.Sprint(k), fmt.Sprint(mp[k]))
+					}
+					oldMap = "[" + strings.Join(parts, ",") + "]"
+				case "alloc":
+					for _, id := range res.IDs {
+						toks = append(toks, fmt.Sprintf("a%d", id))
+					}
+				case "setfull":
+					if res.Err == "" {
+						toks = append(toks, fmt.Sprintf("s%d", e.LastID))
+					}
+				case "flushpage":
+					if res.Err == "" {
+						toks = append(toks, fmt.Sprintf("f%d", e.LastID))
+					}
+				case "flush":
+					if res.Err == "" {
+						toks = append(toks, "F")
+					}
+				case "checkpoint":
+					if res.Err == "" {
+						toks = append(toks, "c")
+					}
+				case "commit":
+					if res.Err != "" || e.File == nil {
+						return
+					}
+					want := m.Ask(fmt.Sprintf("walscript %d %s %s", limit, oldMap, strings.Join(toks, " ")))
+					mp := txfile.VerifSnapshot(e.File).WalMapping
+					keys := make([]int, 0, len(mp))
+					for k := range mp {
+						keys = append(keys, int(k))
+					}
+					sort.Ints(keys)
+					var parts []string
+					for _, k := range keys {
+						parts = append(parts, fmt.Sprint(k))
+					}
+					got := "[" + strings.Join(parts, ",") + "]"
+					rep.count("k1:wal-mapping-after-commit", 1)
+					if len(mp) > 0 {
+						rep.count("k1:wal-mapping-nonempty", 1)
+					}
+					if got != want {
+						mism = append(mism, fmt.Sprintf("pages with an overwrite page after the commit: implementation %s, model %s (limit %d, mapping before %s, transaction: %s)", got, want, limit, oldMap, strings.Join(toks, " ")))
+					}
+				}
+			}
+		}
+		e := runOracleHistory(rep, cfg, ops, hseed, "wal-k1", setup, nil)
+		if e != nil {
+			rep.nontrivial(fmt.Sprintf("walk1/%s/%v", cfg, e.Stats))
+		}
+		if len(mism) > 0 {
+			rep.violate(Violation{Kind: "correspondence", Sig: "txcore/overwrite-mapping-after-commit",
+				Detail: mism[0] + " on " + cfg.String(),
+				Replay: histReplay{Config: cfg, Ops: ops, Failures: mism, Seed: hseed, Mode: "wal-k1"}})
+		}
 	}
 }
